@@ -2301,6 +2301,12 @@ class RlWriter:
         return build_paragraph(txt, heading_style(mode="tablecaption"))
 
     def renderCaption(self, table):
+        # a nested table is written twice (once while the outer table's size is
+        # calculated); the caption node is removed on the first visit, so keep
+        # its flowables for the second one
+        cached = getattr(table, "caption_elements", None)
+        if cached is not None:
+            return cached
         res = []
         for row in table.children[:]:
             if row.__class__ == Caption:
@@ -2310,6 +2316,7 @@ class RlWriter:
                 )  # this is slight a hack. we do this in order not to simplify cell-coloring code
             elif row.__class__ != advtree.Row:
                 table.remove_child(row)
+        table.caption_elements = res
         return res
 
     def writeCell(self, cell):
